@@ -11,6 +11,7 @@ from __future__ import annotations
 
 import itertools
 import json
+from typing import List
 import signal
 import time
 import warnings
@@ -43,7 +44,7 @@ XSI = I.XSI
 WATCHDOG_S = 20
 
 
-class Timeout(Exception):
+class Timeout(BaseException):  # not an Exception: library code that swallows Exception must not swallow the watchdog
     pass
 
 
@@ -87,12 +88,19 @@ def acceptable_result(value, clazz) -> bool:
     return isinstance(value, DerivedElement) and isinstance(value.value, clazz)
 
 
-def judge(data: bytes, clazz, ctx, case, label: str):
-    for hname, handler in HANDLERS:
+def judge(data: bytes, clazz, ctx, case, label: str, lenient: bool = False):
+    legs = [(hname, handler, "") for hname, handler in HANDLERS]
+    if lenient:
+        # unknown content is skipped instead of refused: other node types do the work
+        legs += [(hname, handler, "lenient") for hname, handler in HANDLERS]
+    for hname, handler, mode in legs:
+        cfg = ParserConfig(fail_on_unknown_properties=False, fail_on_unknown_attributes=False) if mode else ParserConfig()
         with warnings.catch_warnings():
             warnings.simplefilter("ignore")
-            r = guarded(XmlParser(context=ctx, config=ParserConfig(), handler=handler).from_bytes, data, clazz)
-        c = {**case, "handler": hname}
+            r = guarded(XmlParser(context=ctx, config=cfg, handler=handler).from_bytes, data, clazz)
+        c = {**case, "handler": hname, "config": mode or "default"}
+        if mode:
+            hname = f"{hname}-lenient"
         if r[0] == "timeout":
             return dict(ok=False, case=c, bucket=f"{label}/{hname}/hang", detail=f"no answer within {WATCHDOG_S}s")
         if r[0] == "exc":
@@ -101,12 +109,16 @@ def judge(data: bytes, clazz, ctx, case, label: str):
         else:
             if not acceptable_result(r[1], clazz):
                 return dict(ok=False, case=c, bucket=f"{label}/{hname}/returns-{type(r[1]).__name__}", detail=f"returned {r[1]!r}, not an instance of {clazz.__name__}")
-            if hname == "native":
+            if hname.startswith("native"):
                 a, b = well_formed_judges(data)
                 if not a and not b:
                     return dict(ok=False, case=c, bucket=f"{label}/native/accepts-not-well-formed", detail=f"expat and libxml2 both reject the document; the native handler returned {r[1]!r}")
     return None
 
+
+# what a typed value or attribute is replaced with: nonsense, and near misses of the lexical spaces (too many fraction digits, lone
+# signs and designators, digits of other scripts, huge numbers, unbalanced escapes of the formats)
+CORRUPT = ["not a value !", "12:00:00.12345678901", "2020-01-01T00:00:00.0000000000Z", "-", "P", "1e99999", "\u0661\u0662", "9" * 400, "{", "--02-30", "a:b:c", "%Y"]
 
 # ---------------------------------------------------------------------------------------
 # structural faults on the concrete document
@@ -130,9 +142,13 @@ def structural_faults(root: I.El, spec: G.ModelSpec) -> list[tuple]:
         for j in range(len(e.attrs)):
             out.append(("attr-delete", i, j))
             out.append(("attr-corrupt", i, j))
+            for ci in range(1, len(CORRUPT)):
+                out.append(("attr-corrupt", i, j, ci))
         for j, k in enumerate(e.kids):
             if isinstance(k, str):
                 out.append(("text-corrupt", i, j))
+                for ci in range(1, len(CORRUPT)):
+                    out.append(("text-corrupt", i, j, ci))
                 out.append(("text-delete", i, j))
         els_idx = [j for j, k in enumerate(e.kids) if isinstance(k, I.El)]
         for a, b in zip(els_idx, els_idx[1:]):
@@ -190,9 +206,9 @@ def apply_fault(root: I.El, f: tuple):
         del e.attrs[f[2]]
     elif kind == "attr-corrupt":
         k, v = e.attrs[f[2]]
-        e.attrs[f[2]] = (k, "not a value !")
+        e.attrs[f[2]] = (k, CORRUPT[f[3]] if len(f) > 3 else CORRUPT[0])
     elif kind == "text-corrupt":
-        e.kids[f[2]] = "not a value !"
+        e.kids[f[2]] = CORRUPT[f[3]] if len(f) > 3 else CORRUPT[0]
     elif kind == "text-delete":
         del e.kids[f[2]]
     elif kind == "swap":
@@ -226,7 +242,7 @@ def h_structural(ch: Chooser, vec: list, maxf: int, seed: str | None = None):
             fault = faults[k - 1]
             doc = _write(apply_fault(root, fault))
         case = {"model": model.source.split("XmlTime\n", 1)[-1].strip(), "instance": model.instance_source(exprs), "fault": repr(fault), "document": doc}
-        bad = judge(doc.encode("utf-8"), model.root, ctx, case, f"structural/{fault[0]}" + (f"-{fault[2]}" if fault[0] == "xsi-type" else ""))
+        bad = judge(doc.encode("utf-8"), model.root, ctx, case, f"structural/{fault[0]}" + (f"-{fault[2]}" if fault[0] == "xsi-type" else ""), lenient=True)
         if bad:
             return bad
         return dict(ok=True, case=case, obs=fault[0], nontrivial=h(doc) if k else None, counters={"fault:" + fault[0]: 1})
@@ -369,10 +385,15 @@ def h_json(ch: Chooser, vec: list, maxf: int):
         elif f[0] == "rename-key":
             d[f[1] + "X"] = d.pop(f[1])
         case = {"model": model.source.split("XmlTime\n", 1)[-1].strip(), "instance": model.instance_source(exprs), "fault": repr(f), "payload": repr(payload)[:500]}
-        for route in ("dict", "json", "json-truncated", "dict-untyped"):
+        routes = ("dict", "json", "json-truncated", "dict-untyped") + (("dict-list-target", "json-list-target") if isinstance(payload, list) else ())
+        for route in routes:
             with warnings.catch_warnings():
                 warnings.simplefilter("ignore")
-                if route == "dict-untyped":
+                if route == "dict-list-target":
+                    r = guarded(DictDecoder(context=ctx).decode, payload, List[model.root])
+                elif route == "json-list-target":
+                    r = guarded(JsonParser(context=ctx).from_string, json.dumps(payload), List[model.root])
+                elif route == "dict-untyped":
                     r = guarded(DictDecoder(context=ctx).decode, payload, None)
                 elif route == "dict":
                     r = guarded(DictDecoder(context=ctx).decode, payload, model.root)
@@ -385,9 +406,12 @@ def h_json(ch: Chooser, vec: list, maxf: int):
             if r[0] == "timeout":
                 return dict(ok=False, case=c, bucket=f"json/{f[0]}/{route}/hang", detail="watchdog")
             if r[0] == "exc":
-                ok_types = DOCUMENTED + ((json.JSONDecodeError,) if route != "dict" else ())
+                ok_types = DOCUMENTED + ((json.JSONDecodeError,) if not route.startswith("dict") else ())
                 if not isinstance(r[1], ok_types):
                     return dict(ok=False, case=c, bucket=f"json/{f[0]}/{route}/leaks-{type(r[1]).__name__}", detail=f"{type(r[1]).__name__}: {r[1]}")
+            elif route.endswith("-list-target"):
+                if not (isinstance(r[1], list) and all(isinstance(x, model.root) for x in r[1])):
+                    return dict(ok=False, case=c, bucket=f"json/{f[0]}/{route}/returns-{type(r[1]).__name__}", detail=f"returned {r[1]!r}")
             elif route != "dict-untyped" and not isinstance(r[1], model.root):
                 return dict(ok=False, case=c, bucket=f"json/{f[0]}/{route}/returns-{type(r[1]).__name__}", detail=f"returned {r[1]!r}")
         return dict(ok=True, case=case, obs=f[0], nontrivial=h(repr(payload)) if fi else None, counters={"fault:json-" + f[0]: 1})
@@ -422,7 +446,7 @@ def run(tier: str, seed: int) -> int:
     return finish(
         PROP, tier, seed, "fault_enumeration", stats, t0,
         rule=(f"structural faults: {len(vecs)} G-model models x (default instance or one value deviation) x every single structural fault (delete / duplicate / retag / re-namespace / "
-              "undeclared prefix / swap of every element, child inside every element, 12 foreign xsi:type values (unknown, undeclared, empty, 8 standard datatypes incl. the binary ones) and 5 xsi:nil values on every element, delete / corrupt every attribute and text, "
+              "undeclared prefix / swap of every element, child inside every element, 12 foreign xsi:type values (unknown, undeclared, empty, 8 standard datatypes incl. the binary ones) and 5 xsi:nil values on every element, delete / corrupt (12 replacement values) every attribute and text, each also under a lenient parser configuration, "
               f"wrong root, wrapped root); byte faults: {len(bvecs)} documents x truncation at every offset, deletion of every byte, 6 substitutions at every offset; a well-formed ASCII document under {len(ENCODINGS)} declared encoding names; all byte strings of "
               "length <= 2 over an 8-byte alphabet; JSON/dict: 5 document-shape faults + 8 faults per key, through DictDecoder, JsonParser and a truncated JSON text. Both handlers. "
               "Distinct non-trivial = distinct faulty document."),
